@@ -190,6 +190,26 @@ func load(args map[string]string) error {
 						st.DeleteRegion(r)
 						deleted = append(deleted, s64(id))
 					}
+					if i > 0 && rng.Intn(10) == 0 {
+						// an earlier region (flushed long ago or still batched) is saved again with a newer epoch and, half of the
+						// time, deleted before the next flush: neither version may come back
+						j := rng.Intn(i)
+						old := &metapb.Region{Id: ids[j], StartKey: []byte(fmt.Sprintf("%s%012d", bigKey, j)), EndKey: []byte(fmt.Sprintf("%s%012d", bigKey, j+1)),
+							RegionEpoch: &metapb.RegionEpoch{Version: 2, ConfVer: 1}}
+						gone := false
+						for _, d := range deleted {
+							gone = gone || d == s64(ids[j])
+						}
+						if !gone {
+							if err := st.SaveRegion(old); err != nil {
+								return err
+							}
+							if rng.Intn(2) == 0 {
+								st.DeleteRegion(old)
+								deleted = append(deleted, s64(ids[j]))
+							}
+						}
+					}
 				}
 				switch backend {
 				case "leveldb", "leveldb-flushfail":
